@@ -70,7 +70,7 @@ def judge_model(m, xs, doms, cons):
         return [("raised", f"{type(ex).__name__}: {ex}")], "raised", False
     cnf = _CAPTURE["clauses"]
     sols = set(cplib.solutions(doms, cons))
-    names = "xyzuvw"[: len(doms)]
+    names = "xyzuvwabcdefgh"[: len(doms)]
     total = 1
     for lo, hi in doms:
         total *= hi - lo + 1
@@ -219,6 +219,8 @@ def plan(tier, seed):
         ("cumulative1", None),
         ("cumulative2", None),
         ("cumulative3", b8),
+        ("alldiff_wide", (seed % 8, 8) if q else None),
+        ("cumulative5_unit", None),
         ("cumulative2_dur013", None),
         ("cumulative2_dem02", None),
         ("cumulative3_dur013", b8),
